@@ -4,6 +4,7 @@ CONSTANT Games <- MCGames
 CHECK_DEADLOCK FALSE
 PROPERTY OuterLenExact
 PROPERTY InnerLenExact
+PROPERTY InnerYieldsNextPositive
 INVARIANT OuterZeroIffDone
 INVARIANT InnerZeroIffDone
 INVARIANT EachInfosetOnce
